@@ -285,13 +285,18 @@ func (m *fStompSubscriberTransport) Unsubscribe() error {
 // processMessages call the given FAsyncCallback with messages from the
 // subscription channel.
 func (m *fStompSubscriberTransport) processMessages() {
+	// The loop works on the subscription and callback it was started for:
+	// Unsubscribe clears m.callback while a message may still be on its way
+	// to the callback.
 	stopC := m.stopC
+	sub := m.sub
+	callback := m.callback
 	for {
 		select {
 		case <-stopC:
 			logger().Errorf("frugal: error processing stomp subscription messages, message received on stop channel")
 			return
-		case message, ok := <-m.sub.C:
+		case message, ok := <-sub.C:
 			logger().Debugf("frugal: received stomp message on topic '%s'", m.topic)
 			if !ok {
 				logger().Errorf("frugal: error processing subscription messages, message channel closed")
@@ -304,7 +309,7 @@ func (m *fStompSubscriberTransport) processMessages() {
 			}
 
 			transport := &thrift.TMemoryBuffer{Buffer: bytes.NewBuffer(message.Body[4:])}
-			if err := m.callback(transport); err != nil {
+			if err := callback(transport); err != nil {
 				logger().Warn("frugal: error executing callback: ", err)
 				continue
 			}
